@@ -182,6 +182,25 @@ func (x *executor) invoke(m *machine, fr *frame, in ssa.Instruction, res ssa.Val
 		x.setResult(fr, res, []Val{{t: app("errorString", "Str", c.termOf(recv)), typ: types.Typ[types.String]}})
 		return
 	}
+	// devirtualisation requested by the contract of the function under verification
+	if x.fc != nil && x.fc.dispatch != nil {
+		if conc, ok := x.fc.dispatch[typeKeyShort(recv.typ)]; ok {
+			ev := &evaluator{x: x, st: m.st, pkg: x.pkg, where: x.fc.file}
+			ct := ev.resolveType(conc)
+			ctor := c.ifaceCtor(ct)
+			x.oblige(m, "call-pre", x.instrName(fr, in, "call-pre")+".dispatch", mkIs(ctor, c.termOf(recv)), nil, "dynamic type of the receiver is "+conc)
+			m.st.assume(mkIs(ctor, c.termOf(recv)))
+			rv := Val{t: mkSel(ctor, 0, c.termOf(recv)), typ: ct}
+			ms := x.prog.prog.MethodSets.MethodSet(ct)
+			sel := ms.Lookup(method.Pkg(), method.Name())
+			if sel == nil {
+				panic(unsupported("dispatch: " + conc + " has no method " + method.Name()))
+			}
+			target := x.prog.prog.MethodValue(sel)
+			x.callFunction(m, fr, in, res, target, nil, append([]Val{rv}, args...))
+			return
+		}
+	}
 	rt := sig.Recv().Type()
 	key := ""
 	if n, ok := rt.(*types.Named); ok {
@@ -408,7 +427,7 @@ func (x *executor) builtin(m *machine, fr *frame, in ssa.Instruction, res ssa.Va
 		}
 		n := mkIte(c.cmp(token.LSS, c.slLen(dst.t), c.slLen(srcT), intT), c.slLen(dst.t), c.slLen(srcT))
 		n = c.name(st, "copyn", n)
-		x.checkFrameRefGuard(m, fr, in, c.cmp(token.GTR, n, c.I(0), intT), false, c.sortOf(et), c.slRef(dst.t))
+		x.checkFrameRefGuard(m, fr, in, c.cmp(token.GTR, n, c.I(0), intT), false, heapKey(et), c.slRef(dst.t))
 		x.copyRange(st, et, dst.t, c.I(0), srcT, c.I(0), n)
 		x.setResult(fr, res, []Val{{t: n, typ: intT}})
 	case "print", "println":
@@ -436,29 +455,34 @@ func (x *executor) copyRange(st *state, et types.Type, dst, dlo, src, slo, n *T)
 	c := x.c
 	intT := types.Typ[types.Int]
 	es := c.sortOf(et)
-	a := c.arrOf(st, es)
+	a := c.arrOf(st, et)
 	srcArr := mkSelect(a, c.slRef(src))
 	dstArr := mkSelect(a, c.slRef(dst))
 	if v, ok := numeralValue(n); ok && v.IsInt64() && v.Int64() <= 8 {
 		na := dstArr
 		for k := int64(0); k < v.Int64(); k++ {
-			di := c.arith(token.ADD, c.arith(token.ADD, c.slOff(dst), dlo, intT, nil), c.I(k), intT, nil)
-			si := c.arith(token.ADD, c.arith(token.ADD, c.slOff(src), slo, intT, nil), c.I(k), intT, nil)
+			di := c.ix(c.slOff(dst), c.arith(token.ADD, dlo, c.I(k), intT, nil))
+			si := c.ix(c.slOff(src), c.arith(token.ADD, slo, c.I(k), intT, nil))
 			na = mkStore(na, di, mkSelect(srcArr, si))
 		}
-		st.arrs[es] = c.name(st, "A_"+es, mkStore(a, c.slRef(dst), na))
+		c.setArr(st, et, mkStore(a, c.slRef(dst), na))
 		return
 	}
-	na := c.d.fresh("cp_"+es, arraySort(c.intSort(), es))
+	na := c.freshArr("cp_"+heapKey(et), et)
 	qcounter++
 	k := atom(fmt.Sprintf("k!%d", qcounter), c.intSort())
+	// copied range: forall j in [0,n): na[doff+dlo+j] == src[soff+slo+j]
+	inN := mkAnd(c.cmp(token.LEQ, c.I(0), k, intT), c.cmp(token.LSS, k, n, intT))
+	di := c.ix(c.slOff(dst), c.arith(token.ADD, dlo, k, intT, nil))
+	si := c.ix(c.slOff(src), c.arith(token.ADD, slo, k, intT, nil))
+	st.assume(app(fmt.Sprintf("forall ((%s %s))", k.op, k.sort), "Bool", mkImp(inN, mkEq(app("select", es, na, di), app("select", es, srcArr, si)))))
+	// everything outside the copied range is unchanged (absolute index p)
+	qcounter++
+	p := atom(fmt.Sprintf("p!%d", qcounter), c.intSort())
 	dbase := c.arith(token.ADD, c.slOff(dst), dlo, intT, nil)
-	sbase := c.arith(token.ADD, c.slOff(src), slo, intT, nil)
-	inR := mkAnd(c.cmp(token.LEQ, dbase, k, intT), c.cmp(token.LSS, k, c.arith(token.ADD, dbase, n, intT, nil), intT))
-	srcIdx := c.arith(token.ADD, sbase, c.arith(token.SUB, k, dbase, intT, nil), intT, nil)
-	body := mkEq(app("select", es, na, k), mkIte(inR, app("select", es, srcArr, srcIdx), app("select", es, dstArr, k)))
-	st.assume(app(fmt.Sprintf("forall ((%s %s))", k.op, k.sort), "Bool", body))
-	st.arrs[es] = c.name(st, "A_"+es, mkStore(a, c.slRef(dst), na))
+	inR := mkAnd(c.cmp(token.LEQ, dbase, p, intT), c.cmp(token.LSS, p, c.arith(token.ADD, dbase, n, intT, nil), intT))
+	st.assume(app(fmt.Sprintf("forall ((%s %s))", p.op, p.sort), "Bool", mkImp(mkNot(inR), mkEq(app("select", es, na, p), app("select", es, dstArr, p)))))
+	c.setArr(st, et, mkStore(a, c.slRef(dst), na))
 }
 
 func (x *executor) checkFrameRefGuard(m *machine, fr *frame, in ssa.Instruction, guard *T, heap bool, sort string, ref *T) {
@@ -478,7 +502,7 @@ func (x *executor) appendBuiltin(m *machine, fr *frame, in ssa.Instruction, res 
 	s, t := args[0], args[1]
 	sl := com.Args[0].Type().Underlying().(*types.Slice)
 	et := sl.Elem()
-	es := c.sortOf(et)
+	_ = c.sortOf(et)
 	tT := t.t
 	if isString(com.Args[1].Type()) {
 		tT = x.stringToBytes(st, t.t)
@@ -488,19 +512,19 @@ func (x *executor) appendBuiltin(m *machine, fr *frame, in ssa.Instruction, res 
 	fits := c.cmp(token.LEQ, newLen, c.slCap(s.t), intT)
 	fresh := c.freshRef(st)
 	// in-place writes need frame permission
-	x.checkFrameRefGuard(m, fr, in, mkAnd(fits, c.cmp(token.GTR, n, c.I(0), intT)), false, es, c.slRef(s.t))
+	x.checkFrameRefGuard(m, fr, in, mkAnd(fits, c.cmp(token.GTR, n, c.I(0), intT)), false, heapKey(et), c.slRef(s.t))
 	newRef := mkIte(fits, c.slRef(s.t), fresh)
 	newCap := c.d.fresh("cap", c.intSort())
-	st.assume(mkAnd(c.cmp(token.LEQ, newLen, newCap, intT), c.cmp(token.LEQ, newCap, c.I(1<<40), intT)))
+	st.assume(mkAnd(c.cmp(token.LEQ, newLen, newCap, intT), c.cmp(token.LEQ, newCap, c.I(1<<62), intT)))
 	capT := mkIte(fits, c.slCap(s.t), newCap)
 	// contents: old array of s with t's elements stored at off+len..; written at newRef
-	a := c.arrOf(st, es)
+	a := c.arrOf(st, et)
 	oldArr := mkSelect(a, c.slRef(s.t))
 	// build updated array relative to s's offset
 	tmp := c.mkSlice(c.slRef(s.t), c.slOff(s.t), newLen, capT)
 	// temporarily: compute new contents via copyRange on a scratch ref equal to newRef
 	// First place old contents at newRef, then copy t into position.
-	st.arrs[es] = c.name(st, "A_"+es, mkStore(a, newRef, oldArr))
+	c.setArr(st, et, mkStore(a, newRef, oldArr))
 	dst := c.mkSlice(newRef, c.slOff(s.t), newLen, capT)
 	_ = tmp
 	x.copyRange(st, et, dst, c.slLen(s.t), tT, c.I(0), n)
